@@ -120,10 +120,17 @@ def msp430 : Formatter where
     { addr := a, len := msp430Len m a, cells := ws.flatMap fun p => cellsOfWord16LE p.1 p.2,
       words := ws.map (·.2.toNat), cycles := Msp430.Sim.disCycles (read16 m a) (read16 m (a + 2)) }
 
-/-- a reader's bytes of a printed RISC-V word (the CPU is little endian) -/
+/-- a reader's bytes of a printed word, least significant byte first -/
 def cellsOfValueLE (a : BitVec 32) (v : BitVec 32) : Nat → List Cell
   | 0 => []
   | n + 1 => ⟨a, v.setWidth 8⟩ :: cellsOfValueLE (a + 1) (v >>> 8) n
+
+/-- the bytes of a printed 16- or 32-bit word in the byte order in force (`.big_endian` / `.little_endian` are part
+of the source the listing echoes) -/
+def cellsOfValue (big : Bool) (a : BitVec 32) (v : BitVec 32) (n : Nat) : List Cell :=
+  if big then
+    (List.zip (addrRange a n) ((cellsOfValueLE a v n).map (·.val)).reverse).map fun p => ⟨p.1, p.2⟩
+  else cellsOfValueLE a v n
 
 def riscvLen (m : Memory) (a : BitVec 32) : Nat := Riscv.Disasm.len (read32 m a)
 
@@ -134,30 +141,30 @@ def riscv : Formatter where
   render := fun m a =>
     let w := read32 m a
     if riscvLen m a = 2 then
-      { addr := a, len := 2, cells := cellsOfValueLE a ((read16 m a).zeroExtend 32) 2, words := [(read16 m a).toNat],
+      { addr := a, len := 2, cells := cellsOfValue m.bigEndian a ((read16 m a).zeroExtend 32) 2, words := [(read16 m a).toNat],
         text := none }
     else
-      { addr := a, len := riscvLen m a, cells := cellsOfValueLE a w 4, words := [w.toNat],
+      { addr := a, len := riscvLen m a, cells := cellsOfValue m.bigEndian a w 4, words := [w.toNat],
         text := (Riscv.Disasm.disasm a w).2 }
 
 /-! ### statements -/
 
-/-- one step of what `parse_instruction` does to memory and the location counter -/
-inductive Emit where
-  /-- `address += n` without writing (AVR8 alignment) -/
-  | skip (n : Nat)
-  /-- `memory_write_inc(b, DL_DATA)`: the MSP430 pad byte -/
-  | data (b : Byte)
-  /-- `add_bin8/16/32`: a code byte; `opcode` = it carries the source line in pass 2, otherwise `DL_NO_CG` -/
-  | code (b : Byte) (opcode : Bool)
-  deriving Repr, DecidableEq
+/-- what `parse_instruction` does to memory and the location counter:
+`address += skip` without writing (AVR8 alignment), then `memory_write_inc(b, DL_DATA)` for the pad bytes (the MSP430
+pad in front of an instruction at an odd address), then the code bytes through `add_bin8/16/32` — a code byte either
+carries the source line in pass 2 (`true`) or is marked `DL_NO_CG` -/
+structure Emits where
+  skip : Nat := 0
+  pad : List Byte := []
+  code : List (Byte × Bool)
+  deriving Repr
 
 inductive Simple where
   /-- a data / location directive or a label: `Core.Directives.step` -/
   | dir (d : Directive)
   /-- an instruction on source line `line`; `listed` is false inside an `.include` file (include_parse clears
   `write_list_file` while the file is assembled) -/
-  | instr (line : BitVec 32) (listed : Bool) (es : List Emit)
+  | instr (line : BitVec 32) (listed : Bool) (es : Emits)
   deriving Repr
 
 inductive Stmt where
@@ -188,6 +195,8 @@ structure LSt where
   calls : List Call
   /-- ghost: the addresses written so far in this pass, oldest first -/
   writes : List (BitVec 32)
+  /-- ghost: the addresses written by statements that are not listed (code and pad bytes inside include files) -/
+  quiet : List (BitVec 32)
   /-- ghost: no block written so far wrapped around 2^32 -/
   nowrap : Bool
 
@@ -214,30 +223,15 @@ def writeMark (st : St) (b : Byte) (mark : BitVec 32) : St :=
   | { address, bpa, pass, memory, symbols } =>
     { address := address + 1, bpa, pass, memory := write memory address b mark, symbols }
 
-def emitOne (cfg : Cfg) (line : BitVec 32) (st : St) : Emit → St
-  | .skip n => { st with address := st.address + BitVec.ofNat 32 n }
-  | .data b => writeMark st b dlData
-  | .code b op =>
-    if st.pass = 1 ∧ cfg.p1wd then { st with address := st.address + 1 }
-    else writeMark st b (if st.pass = 2 ∧ op then line else dlNoCg)
+/-- `add_bin8(asm_context, b, flags)` (one byte of `add_bin16/32` alike) -/
+def emitCode (cfg : Cfg) (line : BitVec 32) (st : St) (c : Byte × Bool) : St :=
+  if st.pass = 1 ∧ cfg.p1wd then { st with address := st.address + 1 }
+  else writeMark st c.1 (if st.pass = 2 ∧ c.2 then line else dlNoCg)
 
-/-- ghost: the addresses `es` writes, starting with the location counter at `a` -/
-def emitAddrs (wd : Bool) (a : BitVec 32) : List Emit → List (BitVec 32)
-  | [] => []
-  | .skip n :: es => emitAddrs wd (a + BitVec.ofNat 32 n) es
-  | .data _ :: es => a :: emitAddrs wd (a + 1) es
-  | .code _ _ :: es => if wd then emitAddrs wd (a + 1) es else a :: emitAddrs wd (a + 1) es
-
-/-- ghost: where the code bytes of an instruction begin -/
-def codeStart (a : BitVec 32) : List Emit → BitVec 32
-  | .skip n :: es => codeStart (a + BitVec.ofNat 32 n) es
-  | .data _ :: es => codeStart (a + 1) es
-  | _ => a
-
-def emitSpan : List Emit → Nat
-  | [] => 0
-  | .skip n :: es => n + emitSpan es
-  | _ :: es => 1 + emitSpan es
+def emitAll (cfg : Cfg) (line : BitVec 32) (st : St) (es : Emits) : St :=
+  let st1 : St := { st with address := st.address + BitVec.ofNat 32 es.skip }
+  let st2 := es.pad.foldl (fun st b => writeMark st b dlData) st1
+  es.code.foldl (emitCode cfg line) st2
 
 def mkCall (cfg : Cfg) (m : Memory) (start stop first : BitVec 32) : Call :=
   { start, stop, first, lines := listOutput cfg.fmt m start stop }
@@ -252,12 +246,16 @@ def execSimple (cfg : Cfg) (ls : LSt) : Simple → Except Err LSt
                     nowrap := ls.nowrap && decide (ls.st.address.toNat + n ≤ 4294967296) }
   | .instr line listed es =>
     let start := ls.st.address
-    let st' := es.foldl (emitOne cfg line) ls.st
+    let st' := emitAll cfg line ls.st es
+    let base := start + BitVec.ofNat 32 es.skip
+    let first := base + BitVec.ofNat 32 es.pad.length
+    let wd : Bool := decide (ls.st.pass = 1) && cfg.p1wd
+    let written := if wd then addrRange base es.pad.length else addrRange base (es.pad.length + es.code.length)
     -- `if (list != nullptr && write_list_file == true) { list_output(this, start_address, address); }`
-    let calls := if cfg.listing ∧ listed then ls.calls ++ [mkCall cfg st'.memory start st'.address (codeStart start es)]
-                 else ls.calls
-    .ok { st := st', calls, writes := ls.writes ++ emitAddrs (decide (ls.st.pass = 1) && cfg.p1wd) start es,
-          nowrap := ls.nowrap && decide (start.toNat + emitSpan es ≤ 4294967296) }
+    let calls := if cfg.listing ∧ listed then ls.calls ++ [mkCall cfg st'.memory start st'.address first] else ls.calls
+    .ok { st := st', calls, writes := ls.writes ++ written,
+          quiet := if listed then ls.quiet else ls.quiet ++ written,
+          nowrap := ls.nowrap && decide (start.toNat + es.skip + es.pad.length + es.code.length ≤ 4294967296) }
 
 def execSimples (cfg : Cfg) (ls : LSt) : List Simple → Except Err LSt
   | [] => .ok ls
@@ -271,7 +269,7 @@ def execSimples (cfg : Cfg) (ls : LSt) : List Simple → Except Err LSt
 def copyByte (cfg : Cfg) (line : BitVec 32) (st : St) (r : BitVec 32) : St :=
   let d := read8 st.memory r
   if readDebug st.memory r = dlData then writeMark st d dlData
-  else emitOne cfg line st (.code d true)       -- add_bin8(asm_context, data, IS_OPCODE)
+  else emitCode cfg line st (d, true)           -- add_bin8(asm_context, data, IS_OPCODE)
 
 /-- `r` runs from `address_start` while `r < address_end` -/
 def spanLen (start stop : BitVec 32) : Nat := if start < stop then stop.toNat - start.toNat else 0
@@ -321,6 +319,7 @@ def execStmt (cfg : Cfg) (ls : LSt) : Stmt → Except Err LSt
         let calls := if cfg.listing ∧ listed then ls1.calls ++ repRuns cfg st2.memory (st2.address.toNat - stop.toNat) stop st2.address
                      else ls1.calls
         .ok { st := st2, calls, writes := ls1.writes ++ copyWrites cfg ls1.st.pass stop n count,
+              quiet := if listed then ls1.quiet else ls1.quiet ++ copyWrites cfg ls1.st.pass stop n count,
               nowrap := ls1.nowrap && decide (stop.toNat + n * (count - 1) ≤ 4294967296) }
 
 def execStmts (cfg : Cfg) (ls : LSt) : List Stmt → Except Err LSt
@@ -417,7 +416,7 @@ structure Listing where
 
 /-- the second pass from the state the first pass left, then the dump and the summary -/
 def pass2 (cfg : Cfg) (st : St) (prog : List Stmt) : Except Err (LSt × Listing) :=
-  match execStmts { cfg with listing := true } { st, calls := [], writes := [], nowrap := true } prog with
+  match execStmts { cfg with listing := true } { st, calls := [], writes := [], quiet := [], nowrap := true } prog with
   | .error e => .error e
   | .ok ls =>
     let bpa := ls.st.bpa.toNat
@@ -426,7 +425,7 @@ def pass2 (cfg : Cfg) (st : St) (prog : List Stmt) : Except Err (LSt × Listing)
 
 /-- `main()`: pass 1 (no listing), `pass = 2; init();`, pass 2 with `write_list_file` -/
 def run (cfg : Cfg) (dcfg : Core.Directives.Cfg) (prog : List Stmt) : Except Err (LSt × Listing) :=
-  match execStmts { cfg with listing := false } { st := St.init dcfg, calls := [], writes := [], nowrap := true } prog with
+  match execStmts { cfg with listing := false } { st := St.init dcfg, calls := [], writes := [], quiet := [], nowrap := true } prog with
   | .error e => .error e
   | .ok ls1 =>
     pass2 cfg { ls1.st with pass := 2, address := 0, bpa := dcfg.bpa,
